@@ -32,6 +32,10 @@ import (
 //   idle                            wait for the idle shutdown: "returned mode=-" | "serving mode=…" (bounded wait)
 //   stat                            "accepting mode=…" | "closed mode=…"
 //   wait <ms>                       let time pass
+//   hook <ok|fail> | rebind         make the serve-start hook refuse / accept; move the Server's transport binding to "pipe"
+//   connx <c>                       dial a connection that the serve-start hook refuses -> "hookrefused"
+//   shm <c> <x> | pcall <c> <x>     a call advertising connection c's own shm segment / a call whose parameters are a
+//                                   pointer into it (every other segment holds x+500 at the same offset)
 //   storm <conns> <calls>           concurrent search on a private listener: every client checks its own answers
 //
 // Every line handed to the model carries ` @<ms>`, the time since `listen` at which it starts (the clock is
@@ -69,8 +73,14 @@ type c42Params struct {
 	N int64 `vgirpc:"n"`
 }
 
-func c42Server() *vgirpc.Server {
+func c42Server(hookFail *atomic.Bool) *vgirpc.Server {
 	s := vgirpc.NewServer()
+	s.SetServeStartHook(func(vgirpc.TransportKind, map[string]bool) error {
+		if hookFail.Load() {
+			return fmt.Errorf("scripted serve-start hook refusal")
+		}
+		return nil
+	})
 	vgirpc.Unary(s, "echo", func(_ context.Context, _ *vgirpc.CallContext, p c42Params) (int64, error) {
 		return p.N + 1000, nil
 	})
@@ -98,11 +108,16 @@ type c42Listener struct {
 	zeroMs   int       // @ms stamp of the close that brought the open count to zero (-1: none)
 	void     bool
 	curMs    int
+	srv      *vgirpc.Server
+	hookFail atomic.Bool
+	segs     map[int]*vgirpc.ShmSegment
 }
 
 func c42Start(kind string, idleMs int) (*c42Listener, error) {
 	l := &c42Listener{kind: kind, idle: time.Duration(idleMs) * time.Millisecond, done: make(chan struct{}), conns: map[int]net.Conn{}, zeroMs: -1}
-	srv := c42Server()
+	srv := c42Server(&l.hookFail)
+	l.srv = srv
+	l.segs = map[int]*vgirpc.ShmSegment{}
 	ready := make(chan string, 1)
 	if kind == "unix" {
 		l.path = fmt.Sprintf("%s/verif-c42-%d-%d.sock", os.TempDir(), os.Getpid(), c42Seq.Add(1))
@@ -175,6 +190,52 @@ func c42Request(n int) []byte {
 	return b
 }
 
+// c42RawRequest builds an echo request by hand: extra custom metadata (segment advertisement), or a
+// zero-row pointer batch (parameters live in shared memory at off/length).
+func c42RawRequest(x int, extra map[string]string, pointer bool, off uint64, length int) []byte {
+	mem := memory.NewGoAllocator()
+	schema := arrow.NewSchema([]arrow.Field{{Name: "n", Type: arrow.PrimitiveTypes.Int64}}, nil)
+	keys := []string{vgirpc.MetaMethod, vgirpc.MetaRequestVersion}
+	vals := []string{"echo", vgirpc.ProtocolVersion}
+	for k, v := range extra {
+		keys = append(keys, k)
+		vals = append(vals, v)
+	}
+	bld := array.NewInt64Builder(mem)
+	rows := int64(1)
+	if pointer {
+		rows = 0
+		keys = append(keys, vgirpc.MetaShmOffset, vgirpc.MetaShmLength)
+		vals = append(vals, strconv.FormatUint(off, 10), strconv.Itoa(length))
+	} else {
+		bld.Append(int64(x))
+	}
+	col := bld.NewArray()
+	bld.Release()
+	batch := array.NewRecordBatchWithMetadata(schema, []arrow.Array{col}, rows, arrow.NewMetadata(keys, vals))
+	col.Release()
+	defer batch.Release()
+	var buf strings.Builder
+	w := ipc.NewWriter(&buf, ipc.WithSchema(schema))
+	if err := w.Write(batch); err != nil {
+		panic(err)
+	}
+	_ = w.Close()
+	return []byte(buf.String())
+}
+
+func c42ParamsBatch(x int) arrow.RecordBatch {
+	mem := memory.NewGoAllocator()
+	schema := arrow.NewSchema([]arrow.Field{{Name: "n", Type: arrow.PrimitiveTypes.Int64}}, nil)
+	bld := array.NewInt64Builder(mem)
+	bld.Append(int64(x))
+	col := bld.NewArray()
+	bld.Release()
+	b := array.NewRecordBatch(schema, []arrow.Array{col}, 1)
+	col.Release()
+	return b
+}
+
 func c42Send(conn net.Conn, x int) error {
 	_ = conn.SetWriteDeadline(time.Now().Add(5 * time.Second))
 	_, err := conn.Write(c42Request(x))
@@ -211,8 +272,12 @@ func c42RecvT(conn net.Conn, d time.Duration) (int64, error) {
 }
 
 func (l *c42Listener) cleanup() {
+	l.hookFail.Store(false)
 	for _, c := range l.conns {
 		_ = c.Close()
+	}
+	for _, sg := range l.segs {
+		_ = sg.Close()
 	}
 	if l.idle > 0 {
 		// every connection is closed: the listener goes idle and returns by itself (unless it never
@@ -460,6 +525,110 @@ func c42Line(c *Case, l *c42Listener, line string, f []string) string {
 			}
 		}
 		return "serving " + l.mode()
+	case f[0] == "hook" && len(f) == 2:
+		if f[1] != "ok" && f[1] != "fail" {
+			return "bad-op"
+		}
+		l.hookFail.Store(f[1] == "fail")
+		c.Stat("hook-" + f[1])
+		return "ok"
+	case f[0] == "rebind" && len(f) == 1:
+		// the same Server also serves a pipe: the transport binding moves to "pipe", so the next socket
+		// connection re-fires the serve-start hook
+		l.srv.Serve(strings.NewReader(""), &strings.Builder{})
+		c.Stat("rebind")
+		return "ok"
+	case f[0] == "connx" && len(f) == 2:
+		n, old, ok := connOf(f[1])
+		if !ok {
+			return "bad-op"
+		}
+		_ = n
+		if old != nil {
+			return "refused"
+		}
+		before := time.Now()
+		conn, err := net.DialTimeout(l.network(), l.addr, 2*time.Second)
+		if err != nil {
+			return "refused"
+		}
+		res := "hookrefused"
+		if c42Send(conn, 0) == nil {
+			if v, err := c42RecvT(conn, 2*time.Second); err == nil {
+				res = fmt.Sprintf("ok %d", v) // it was served after all
+			}
+		}
+		_ = conn.Close()
+		if len(l.conns) == 0 {
+			l.lastZero = before
+			l.zeroMs = l.curMs
+		}
+		c.Stat("connx")
+		return res
+	case (f[0] == "shm" || f[0] == "pcall") && len(f) == 3:
+		n, conn, ok := connOf(f[1])
+		x, err := strconv.Atoi(f[2])
+		if !ok || err != nil || x < 0 {
+			return "bad-op"
+		}
+		if f[0] == "pcall" && l.segs[n] == nil {
+			return "err:noseg"
+		}
+		if conn == nil {
+			return "err:closed"
+		}
+		var body []byte
+		var decoys [][2]any
+		if f[0] == "shm" {
+			sg := l.segs[n]
+			if sg == nil {
+				var err error
+				sg, err = vgirpc.ShmCreate(vgirpc.ShmHeaderSize + 1<<16)
+				if err != nil {
+					c.Oracle("listener-start", "ShmCreate: "+err.Error())
+					return "err:shm"
+				}
+				l.segs[n] = sg
+			}
+			body = c42RawRequest(x, map[string]string{vgirpc.MetaShmSegmentName: sg.Name(), vgirpc.MetaShmSegmentSize: strconv.Itoa(sg.Size())}, false, 0, 0)
+		} else {
+			pb := c42ParamsBatch(x)
+			off, length, okw, werr := l.segs[n].AllocateAndWrite(pb)
+			pb.Release()
+			if werr != nil || !okw {
+				return "err:shm"
+			}
+			// every other connection's segment holds different parameters at the same place
+			for d, sg := range l.segs {
+				if d == n {
+					continue
+				}
+				db := c42ParamsBatch(x + 500)
+				if o2, _, ok2, e2 := sg.AllocateAndWrite(db); e2 == nil && ok2 {
+					decoys = append(decoys, [2]any{sg, o2})
+				}
+				db.Release()
+			}
+			body = c42RawRequest(x, nil, true, off, length)
+		}
+		_ = conn.SetWriteDeadline(time.Now().Add(5 * time.Second))
+		if _, err := conn.Write(body); err != nil {
+			return "err:closed"
+		}
+		v, rerr := c42Recv(conn)
+		for _, dc := range decoys {
+			_ = dc[0].(*vgirpc.ShmSegment).FreeOffset(dc[1].(uint64))
+		}
+		if rerr != nil {
+			return "err:nothing"
+		}
+		if v == int64(x)+1500 {
+			c.Oracle("connection-saw-other-connections-data", fmt.Sprintf("%q: the pointer request of connection %d was resolved through another connection's shared-memory segment (answer %d, own data would give %d)", line, n, v, x+1000))
+		} else if v != int64(x)+1000 {
+			c.Oracle("response-from-other-call", fmt.Sprintf("%q: connection answered %d, want %d", line, v, x+1000))
+		}
+		c.Stat(f[0])
+		return fmt.Sprintf("resp %d", v)
 	case f[0] == "wait" && len(f) == 2:
 		n, err := strconv.Atoi(f[1])
 		if err != nil || n < 0 {
@@ -587,6 +756,7 @@ func c42Gen(g *Gen) {
 		}
 		lines := []string{fmt.Sprintf("listen %s %d", kind, idle), "stat"}
 		open := []int{}
+		hasSeg := map[int]bool{}
 		pending := map[int]int{} // sent, not yet received
 		next := 1
 		x := 1
@@ -600,6 +770,11 @@ func c42Gen(g *Gen) {
 					continue // would race the re-armed idle timer
 				}
 				lines = append(lines, fmt.Sprintf("conn %d", next))
+				if r.Chance(30) {
+					lines = append(lines, fmt.Sprintf("shm %d %d", next, x))
+					hasSeg[next] = true
+					x += r.Range(1, 7)
+				}
 				open = append(open, next)
 				next++
 				everOpen = true
@@ -608,6 +783,9 @@ func c42Gen(g *Gen) {
 				if pending[c] > 0 {
 					lines = append(lines, fmt.Sprintf("recv %d", c))
 					pending[c]--
+				} else if hasSeg[c] && r.Chance(60) {
+					lines = append(lines, fmt.Sprintf("pcall %d %d", c, x))
+					x += r.Range(1, 7)
 				} else {
 					lines = append(lines, fmt.Sprintf("call %d %d", c, x))
 					x += r.Range(1, 7)
@@ -683,6 +861,28 @@ func c42Gen(g *Gen) {
 			lines = append(lines, fmt.Sprintf("wait %d", T*75/100), "conn 3", "call 3 3", "close 3", "idle", "stat")
 		default:
 			lines = append(lines, fmt.Sprintf("wait %d", T*30/100), "conn 3", "close 3", fmt.Sprintf("wait %d", T*75/100), "stat", "conn 4", "call 4 4", "close 4", "idle")
+		}
+		g.Case(lines...)
+	}
+	// connections refused by the serve-start hook, interleaved with healthy open connections; and two
+	// connections with their own shared-memory segments
+	hk := g.N(12, 120)
+	for i := 0; i < hk; i++ {
+		kind := Pick(r, []string{"tcp", "unix", "tcp"})
+		T := Pick(r, []int{20, 30})
+		var lines []string
+		switch r.Intn(3) {
+		case 0:
+			lines = []string{fmt.Sprintf("listen %s %d", kind, T), "conn 1", "call 1 1", "rebind", "hook fail", "connx 2"}
+			if r.Chance(30) {
+				lines = append(lines, "connx 3")
+			}
+			lines = append(lines, "hook ok", "idle", "stat", "call 1 2", "conn 4", "call 4 3", "idle", "close 1", "close 4", "idle", "stat")
+		case 1:
+			lines = []string{fmt.Sprintf("listen %s %d", kind, T), "hook fail", "connx 1", "idle", "stat"}
+		default:
+			lines = []string{fmt.Sprintf("listen %s %d", kind, T), "conn 1", "shm 1 10", "conn 2", "shm 2 20", "pcall 1 11", "pcall 2 21",
+				"conn 3", "pcall 1 12", "shm 3 30", "pcall 2 22", "pcall 1 13", "pcall 3 31", "close 2", "pcall 1 14", "close 1", "close 3", "idle"}
 		}
 		g.Case(lines...)
 	}
